@@ -38,6 +38,14 @@ theorem pushed_cont (c : Cfg) (x : Item) (k : Pc) (h : ContOK c (some x) k) :
     | (simp [ContOK] at h; simp [Pc.pushed, h]; done)
     | (left; obtain ⟨_, n, hn⟩ := h; rw [hn]; exact pushed_markChain c n)
 
+/-- a continuation that has pushed a task is a submitter's, not the balance thread's -/
+theorem pushed_cont_role (c : Cfg) (x : Option Item) (k : Pc) (h : ContOK c x k) (id : Nat) (hp : k.pushed = some id) :
+    k.role ≠ .bal := by
+  cases k <;> first
+    | (simp [Pc.role]; done)
+    | (exfalso; simp [Pc.pushed] at hp; done)
+    | (exfalso; obtain ⟨_, n, hn⟩ := h; rw [hn, pushed_markChain] at hp; cases hp)
+
 structure Inv3X (s : State) : Prop where
   x1 : ∀ t id, (s.pc t).pushed = some id →
         s.known id = true ∧ s.accepted id = false ∧ (s.gTicket id ≠ none ∨ s.viaLocal id = true)
